@@ -48,10 +48,10 @@ def fargsOkB : FArgs → Bool
   | .tup as => as.all atomOkB
   | .map kvs => kvs.all fun p => atomOkB p.2
 
-/-- element and attribute names are names the serializer writes plainly; no raw-text or
-    whitespace-preserving element; under html a void element is empty -/
+/-- element and attribute names are names the serializer writes plainly; no raw-text element;
+    under html a void element is empty -/
 def tagOkB (m : Method) (t : Name) : Bool :=
-  isNameB t && !(noescapeElems m).contains t && !(preserveElems m).contains t
+  isNameB t && !(noescapeElems m).contains t
 
 def attrNameOkB (m : Method) (n : Name) : Bool := isNameB n && plainAttrName m n
 
